@@ -92,7 +92,7 @@ fn drive_fabs(out: &mut Out, stats: &mut Stats) {
 
 fn drive_ilog(out: &mut Out, stats: &mut Stats, rng: &mut Rng, thorough: bool) {
     let mut n = 0;
-    let mut one = |out: &mut Out, x: usize| match guarded(|| ilog_2(x)) {
+    let one = |out: &mut Out, x: usize| match guarded(|| ilog_2(x)) {
         Ok(r) => out.line(&format!("{{\"op\":\"ilog\",\"x\":{},\"res\":{}}}", x, r)),
         Err(m) => out.line(&format!("{{\"op\":\"panic\",\"during\":\"ilog_2\",\"msg\":{}}}", jstr(&m))),
     };
@@ -192,14 +192,14 @@ fn drive_lerp(out: &mut Out, stats: &mut Stats, rng: &mut Rng, thorough: bool) {
             match rng.below(5) {
                 0 => *rng.pick(&[0.0f32, 1.0, -1.0, 0.5, -0.0]),
                 1 => (rng.unit() * 2.0 - 1.0) as f32,
-                2 => rng.log_uniform(1e-12, 1e6) as f32 * if rng.chance(1, 2) { -1.0 } else { 1.0 },
+                2 => rng.log_uniform(1e-12, 1.9) as f32 * if rng.chance(1, 2) { -1.0 } else { 1.0 },
                 // neighbouring table entries: a small difference of large values
                 3 => 0.99 + (rng.unit() * 0.01) as f32,
-                _ => (rng.unit() * 10.0) as f32,
+                _ => (rng.unit() * 1.9) as f32,
             }
         };
         let y0 = pickv(rng);
-        let y1 = if rng.chance(1, 3) { unkey(key(y0) + rng.range(-4, 4)) } else { pickv(rng) };
+        let y1 = if rng.chance(1, 3) { unkey((key(y0) + rng.range(-4, 4)).clamp(-0x3ff0_0000, 0x3ff0_0000)) } else { pickv(rng) };
         // ascending fractions in [0, 1]: the multiples of 2^-k the accumulator produces, plus 0 and 1
         let k = rng.range(1, 14) as i32;
         let steps = (1u32 << k).min(48);
@@ -211,8 +211,8 @@ fn drive_lerp(out: &mut Out, stats: &mut Stats, rng: &mut Rng, thorough: bool) {
         for f in fr {
             match guarded(|| linear_interp(y0, y1, f)) {
                 Ok(r) => out.line(&format!(
-                    "{{\"op\":\"lerp\",\"y0\":{},\"y1\":{},\"f\":{},\"res\":{},\"first\":{}}}",
-                    key(y0), key(y1), key(f), key(r), first
+                    "{{\"op\":\"lerp\",\"y0\":{},\"y1\":{},\"f\":{},\"res\":{},\"q0\":{},\"q1\":{},\"qr\":{},\"first\":{}}}",
+                    key(y0), key(y1), key(f), key(r), q24(y0), q24(y1), q24(r), first
                 )),
                 Err(m) => out.line(&format!("{{\"op\":\"panic\",\"during\":\"linear_interp\",\"msg\":{}}}", jstr(&m))),
             }
@@ -286,8 +286,8 @@ pub fn rerun(lines: &[serde_json::Value], out: &mut Out) {
                 let (y0, y1, f) = (unkey(v["y0"].as_i64().unwrap()), unkey(v["y1"].as_i64().unwrap()), unkey(v["f"].as_i64().unwrap()));
                 match guarded(|| linear_interp(y0, y1, f)) {
                     Ok(r) => out.line(&format!(
-                        "{{\"op\":\"lerp\",\"y0\":{},\"y1\":{},\"f\":{},\"res\":{},\"first\":{}}}",
-                        key(y0), key(y1), key(f), key(r), v["first"]
+                        "{{\"op\":\"lerp\",\"y0\":{},\"y1\":{},\"f\":{},\"res\":{},\"q0\":{},\"q1\":{},\"qr\":{},\"first\":{}}}",
+                        key(y0), key(y1), key(f), key(r), q24(y0), q24(y1), q24(r), v["first"]
                     )),
                     Err(m) => out.line(&format!("{{\"op\":\"panic\",\"during\":\"linear_interp\",\"msg\":{}}}", jstr(&m))),
                 }
